@@ -26,11 +26,15 @@ def run_one(binargv, line, stdin=False, tag="one"):
 
 def split_case(line):
     f = line.split(" ")
-    return {"id": f[1], "mp": f[2], "fabs": f[3], "acc": f[4], "nodes": f[5], "reqs": f[6].split(";")}
+    return {"id": f[1], "mp": f[2], "fabs": f[3], "acc": f[4], "nodes": f[5], "reqs": f[6].split(";"),
+            "events": f[7] if len(f) > 7 else None}
 
 
 def join_case(c, reqs, cid="0"):
-    return "Q %s %s %s %s %s %s" % (cid, c["mp"], c["fabs"], c["acc"], c["nodes"], ";".join(reqs))
+    line = "Q %s %s %s %s %s %s" % (cid, c["mp"], c["fabs"], c["acc"], c["nodes"], ";".join(reqs))
+    if c.get("events") is not None:
+        line += " " + c["events"]
+    return line
 
 
 def responses(out_line):
@@ -117,6 +121,18 @@ def shrink(hbin, driver, c, group):
                     break
         if changed:
             continue
+        # drop queued events
+        if c.get("events") not in (None, "-"):
+            evs = c["events"].split("&")
+            for k in range(len(evs)):
+                cand = evs[:k] + evs[k + 1:]
+                cc = dict(c)
+                cc["events"] = "&".join(cand) or "-"
+                if bad(cc, group):
+                    c, changed = cc, True
+                    break
+            if changed:
+                continue
         no_switch = all(rq.split(",")[5] == "-" for rq in group)
         # drop ACL entries (in every alternative table)
         tables = c["fabs"].split("!")
@@ -175,14 +191,15 @@ def shrink(hbin, driver, c, group):
 
 
 EXPLAIN = """fields of the case line:
-  Q <id> <max paths per invoke> <fabrics> <requester> <nodes> <requests>
+  Q <id> <max paths per invoke> <fabrics> <requester> <nodes> <requests> [<event queue: ep.cluster.event.FabricIndex of the payload (n: none)>]
   fabrics   alternative ACL tables joined by '!'; table = idx:entries:groups joined by '|';
             entry = privilege bits,auth mode,-,subjects,targets (target = endpoint.cluster.devtype)
-  requester SC,fabric,peer node id,CASE tags,0,0 (CASE session) | SP,fabric,... (PASE session)
+  requester SC,fabric,peer node id,CASE tags,0,0 (CASE session) | SP,fabric,... (PASE session) | SG,fabric,n,0/0/0,group id,0
+            (group session: requests are not answered, the response token is GL[handler calls])
   nodes     joined by '#'; node = endpoints joined by '|'; endpoint = id~device types~clusters;
-            cluster = id=attributes=commands; element = id.access bits.enabled
+            cluster = id=attributes=commands[=events]; element = id.access bits.enabled
             (access bits: 1 V,2 O,4 M,8 A levels; 16 readable; 32 writable; 64 fabric-scoped; 128 fabric-sensitive; 256 timed-only)
-  request   op(R/W/I; C = continuation chunk of the preceding write, sent on the same exchange after the previous chunk
+  request   op(E = read with event paths, S = subscribe with event paths (the priming report), R/W/I; C = continuation chunk of the preceding write, sent on the same exchange after the previous chunk
             was sent with MoreChunkedMessages and answered; its 5th field = ms waited before it),TimedRequest flag of the action,fabricFiltered,timeout of a preceding TimedRequest (n: none),
             ms waited after it,switches (k>j/a: after k handler calls node j and ACL table a are in force),items (endpoint.cluster.element[^command ref], x = wildcard)
 response: X<status> (bare StatusResponse) | N (chunk not sent, an earlier one was refused) | I[entries]L[handler calls]; D = served by the handler, S<path>:<status> = refused"""
@@ -269,6 +286,8 @@ def main(tier, replay=None):
                 continue
             if r == "N":
                 pass
+            elif r.startswith("GL["):
+                calls += len([x for x in r[3:-1].split(",") if x])
             elif r.startswith("X"):
                 bare += 1
                 k2 = "bare_" + r[1:].split("L")[0]
